@@ -37,6 +37,18 @@ def _unary(kind, dtype, zp, in_scale=0.05, shape=(1, 4, 4, 8), opts=None):
     return f
 
 
+def _unary_q(kind, dtype, shape, in_scale, in_zp, out_scale, out_zp):
+    def f(name):
+        import netgen
+
+        b = _b(name, dtype)
+        x = b.input(list(shape), scale=in_scale, zp=in_zp)
+        o = b.fm(list(shape), dtype, scale=out_scale, zp=out_zp)
+        b.net.ops.append(netgen.Op(kind, [x], [o]))
+        return b.finish([o]), None
+    return f
+
+
 def _resize(kind, ishape, oshape, align, half=False, dtype="int8", pre=False, slice_=None, post=None):
     def f(name):
         import netgen
@@ -269,6 +281,8 @@ ENTRIES = {
     "gelu_uint8": (_unary("GELU", "uint8", 128, opts=("GeluOptions", dict(Approximate=False))), "C13-37"),
     # C13-38: == on per-axis scales
     "reshape_peraxis_ifm_fc": (_reshape_peraxis_fc, "C13-38"),
+    # C13-39: NumPy-typed operand of rounding_divide_by_pot
+    "hardswish_int8_tiny_scale": (_unary_q("HARD_SWISH", "int8", (1, 4, 3, 16), 1e-8, 127, 0.5, 82), "C13-39"),
     # repaired earlier by other patches; kept so that a regression is a plain VIOLATION
     "pad0_quantize_unit_height": (_pad0_quantize, "f04551a"),
     "slice_strided_conv_same": (_slice_window("conv", 1, 2, "SAME", (1, 9, 15, 4), ((0, 5, 0, 0), (1, 9, 5, 4))), "8ca1454"),
